@@ -28,7 +28,7 @@ type / allocator do not write container bookkeeping (OBJ/TABLE) – they may wri
 from dataclasses import dataclass, field
 from . import ir as IR
 from .ir import IRUnsupported
-from .terms import (Lin, ZERO, const, atom, mk_mul, mk_and, mk_bin, mk_gamma, mk_alignup, c_cmp, c_not, c_and, c_or,
+from .terms import (c_fcmp, mk_memcmp, mk_pure_eq, Lin, ZERO, const, atom, mk_mul, mk_and, mk_bin, mk_gamma, mk_alignup, c_cmp, c_not, c_and, c_or,
                     TRUE, FALSE, subst, walk_atoms, show, show_cond, cond_atoms)
 
 
@@ -403,7 +403,7 @@ class Interp:
                 raise IRUnsupported("gep through %r" % (t,))
         return res
 
-    def to_cond(self, t):
+    def to_cond(self, t, _depth=0):
         """term of an i1 -> condition"""
         if t.is_const():
             return TRUE if (t.c & 1) else FALSE
@@ -415,6 +415,11 @@ class Interp:
             (x, k), = t.t
             if k == -1 and x[0] == "b2i":
                 return c_not(x[1])
+        # a 0/1-valued γ:  (c && x) || (!c && y)
+        if a is not None and a[0] == "gamma" and _depth < 6:
+            x, y = self.to_cond(a[2], _depth + 1), self.to_cond(a[3], _depth + 1)
+            if x[0] != "bit" and y[0] != "bit":
+                return c_or(c_and(a[1], x), c_and(c_not(a[1]), y))
         return ("bit", t)
 
     def from_cond(self, c):
@@ -1129,7 +1134,7 @@ class Interp:
             else:
                 res = mk_bin("xor", a, c)
         elif op == "lshr" and ins.type.kind == "int" and V(ins.ops[1]).const() == ins.type.bits - 1 and \
-                (V(ins.ops[0]).single_atom() or ("",))[0] == "purecall":
+                V(ins.ops[0]).t and (ins.type.bits == 64 or all(a[0] == "purecall" for a, _ in V(ins.ops[0]).t)):
             # sign bit of a signed call result (memcmp):  x >>u (N-1)  ==  [x <s 0]
             res = self.from_cond(c_cmp("slt", V(ins.ops[0]), ZERO))
         elif op in ("udiv", "sdiv", "urem", "srem", "shl", "lshr", "ashr", "or", "xor"):
@@ -1172,7 +1177,7 @@ class Interp:
             res = self.from_cond(c_cmp(ins.attrs["pred"], a, c))
         elif op == "fcmp":
             a, c = V(ins.ops[0]), V(ins.ops[1])
-            res = self.from_cond(("cmp", "f" + ins.attrs["pred"], a, c))
+            res = self.from_cond(c_fcmp(ins.attrs["pred"], a, c))
         elif op in ("fadd", "fsub", "fmul", "fdiv", "frem", "fneg", "fptoui", "fptosi", "uitofp", "sitofp", "fpext", "fptrunc"):
             res = atom((op,) + tuple(V(o) for o in ins.ops))
         elif op == "select":
@@ -1332,7 +1337,7 @@ class Interp:
         elif kind == "BULKCMP":
             # pure function of its operands (the compared memory is not written by const operations): a
             # deterministic atom makes results comparable across witnesses
-            res = atom(("purecall", "memcmp", args[0], args[1], args[2]))
+            res = mk_memcmp(args[0], args[1], args[2])
             e = self.emit("MEMCMP", tuple(args), res, ins, name=name)
         elif kind in ("MEMCPY", "MEMMOVE"):
             e = self.emit(kind, tuple(args[:3]), None, ins)
@@ -1343,7 +1348,9 @@ class Interp:
             self.nfresh += 1
             rt = ins.type
             if rt is not None and rt.kind != "void":
-                if kind in ("EQ", "LT"):
+                if kind == "EQ":
+                    res = mk_pure_eq(args[0], args[1])
+                elif kind == "LT":
                     res = atom(("purecall", kind, args[0], args[1]))
                 else:
                     res = atom(("fresh", self.nfresh, kind.lower()))
